@@ -68,6 +68,12 @@ CLAIMS = {
    design_ref="DESIGN.md §4 C19",
    note="Trusted: Coq kernel; harness/c19.py. mapper.assume (path conditions) and the complexity measure are exercised through the implementation only.",
    technique="Coq proof of join covering both inputs + model/implementation join correspondence + membership oracle"),
+ "C16": dict(
+   category="proof",
+   text="Coq theorems over a model of StructCore layout and the unpack/pack skeleton: every field of a non-packed structure sits at the least offset that is a multiple of its alignment and not before the previous field's end (the C ABI characterisation), packed structures have no padding, the size is a multiple of the alignment, unpack(pack(v)) = v for every field list and surrounding bytes, and the unsigned LEB128 codec round-trips for every number and trailing bytes. Tie: generated definitions (scalars, arrays, strings, full-width bitfields, nested structs/unions, packed or not, per-field byte order) through StructFactory vs the Gallina layout model (vm_compute); the C-layout reference is validated per run against gcc -m64 and -m32 -malign-double (sizeof/_Alignof/offsetof); unpack/pack round trips on random bytes for both pointer sizes; counted, bound, LEB128 (signed and unsigned, vs an independent encoder) and terminated fields. Nine genuine defects found by this check were repaired.",
+   design_ref="DESIGN.md §4 C16",
+   note="Trusted: Coq kernel; harness/c16.py (definition generator, C-layout calculator, gcc table parser); Python's struct module for scalar encodings. Bit-fields are compared with the model/reference only (C packs them into neighbouring units).",
+   technique="Coq proofs of layout laws and codec round trips + model correspondence + gcc-validated differential testing"),
 }
 NOT_YET = {}
 def main():
